@@ -52,6 +52,11 @@ pub fn run(out: &mut Out, thorough: bool, seed: u64, _extra: &[String]) {
                 let v = slot_vec(&mut r, n, t, kind);
                 let p = enc.encode_new(&v);
                 out.case(&format!("batch_encode {} {} {}", k, t, fl(&v)), &format!("vec{}-{}", kind, cls), || fl(p.data()));
+                // round trip: decoding the library's own encoding (structured vectors give encodings with exact structural zeros and slots equal to 0)
+                { let pd: Vec<u64> = { let mut d = p.data().clone(); d.resize(n, 0); d };
+                  out.case(&format!("batch_decode {} {} {}", k, t, fl(&pd)), &format!("rt{}-{}", kind, cls), || fl(&enc.decode_new(&p)));
+                  let back = enc.decode_new(&p); let mut vp = v.clone(); vp.resize(n, 0);
+                  if back == vp { out.raw(&format!("!OK batch_round_trip k={} kind={} # rt-{}", k, kind, cls)); } else { out.raw(&format!("!FAIL batch_round_trip {} {} {} :: decode(encode(v)) != v (zero padded) # rt-{}", k, t, fl(&v), cls)); } }
                 // the destination forms: a REUSED destination (full of unrelated non-zero data, or shorter / longer than N) must give
                 // the same polynomial as a fresh one, and a reused decode buffer the same slots
                 {
